@@ -128,3 +128,100 @@ Example C08_example : canonicalb ex08 = true /\
   clause_iter [None; Some true; None] 3 = Ok [[false; true; false]; [true; true; false]; [false; true; true]; [true; true; true]].
 Proof. vm_compute. repeat split. Qed.
 Print Assumptions C08_example.
+
+(* ---- gaps closed (Proofs/Gaps2PathIter.v, Model/OwnedIter.v, Proofs/Gaps2Owned.v) ---- *)
+From BddVerif Require Import Model.OwnedIter Proofs.Gaps2Canon Proofs.Gaps2PathIter Proofs.Gaps2Owned.
+
+(* The iterators on EVERY valid diagram.  reachable_redundant b: some decision node q with nlow = nhigh is the end of a
+   chain of edges from the last node (edge_chain: each element of the list is the low or the high link of its predecessor).
+   The stack machine panics exactly then ("The given BDD is not canonical." on the way down when both links are 0,
+   otherwise the sanity check "The BDD is not canonical." of the next() call that comes back to the node); in every other
+   case — redundant tests that the root does not reach included — it yields exactly sat_clauses b.  It never loops and
+   never yields a wrong list. *)
+Theorem C08_reachable_redundant_def : forall b, reachable_redundant b <->
+  exists ps q, edge_chain b (size b - 1) ps q /\ 2 <= q /\ q < size b /\ nlow (get b q) = nhigh (get b q).
+Proof. intros b. reflexivity. Qed.
+Print Assumptions C08_reachable_redundant_def.
+
+Theorem C08_path_iter_panic_iff : forall b, wf b -> (path_iter b = Panic <-> reachable_redundant b).
+Proof. exact path_iter_panic_iff. Qed.
+Print Assumptions C08_path_iter_panic_iff.
+
+Theorem C08_path_iter_ok_iff : forall b, wf b -> (path_iter b = Ok (sat_clauses b) <-> ~ reachable_redundant b).
+Proof. exact path_iter_ok_iff. Qed.
+Print Assumptions C08_path_iter_ok_iff.
+
+Theorem C08_path_iter_dichotomy : forall b, wf b -> path_iter b = Panic \/ path_iter b = Ok (sat_clauses b).
+Proof. exact path_iter_dichotomy. Qed.
+Print Assumptions C08_path_iter_dichotomy.
+
+(* decided by the executable test red_below from the root *)
+Theorem C08_path_iter_total : forall b, wf b ->
+  if red_below (path_fuel b) b (root b) then path_iter b = Panic else path_iter b = Ok (sat_clauses b).
+Proof. exact path_iter_total. Qed.
+Print Assumptions C08_path_iter_total.
+
+Theorem C08_sat_valuations_iter_panic_iff : forall b, wf b -> (sat_valuations_iter b = Panic <-> reachable_redundant b).
+Proof. exact sat_valuations_iter_panic_iff. Qed.
+Print Assumptions C08_sat_valuations_iter_panic_iff.
+
+Theorem C08_sat_valuations_iter_total : forall b, wf b ->
+  if red_below (path_fuel b) b (root b) then sat_valuations_iter b = Panic else sat_valuations_iter b = Ok (sat_valuations b).
+Proof. exact sat_valuations_iter_total. Qed.
+Print Assumptions C08_sat_valuations_iter_total.
+
+Example C08_redundant_examples :
+  let reach := [mkNode 2 0 0; mkNode 2 1 1; mkNode 1 1 1; mkNode 0 0 2] in
+  let unreach := [mkNode 2 0 0; mkNode 2 1 1; mkNode 1 1 1; mkNode 0 0 1] in
+  let dead := [mkNode 2 0 0; mkNode 2 1 1; mkNode 1 0 0; mkNode 0 1 2] in
+  wfb reach = true /\ path_iter reach = Panic /\ sat_valuations_iter reach = Panic /\
+  wfb unreach = true /\ path_iter unreach = Ok [[Some true]] /\ reducedb unreach = false /\
+  wfb dead = true /\ path_iter dead = Panic.
+Proof. exact path_iter_redundant_examples. Qed.
+Print Assumptions C08_redundant_examples.
+
+(* The owned iterators as state machines (Model/OwnedIter.v): the state holds the Bdd next to the iterator state, one
+   transition per call of next().  `into_bdd` (From<Owned...> for Bdd) after `new` and ANY k calls of next() — whatever
+   they answered — is the Bdd that went in. *)
+Theorem C08_owned_iter_gives_back :
+  (forall b s0 k items s, owned_paths_new b = Ok s0 -> owned_paths_steps k s0 = Ok (items, s) -> owned_paths_into_bdd s = b) /\
+  (forall b s0 k items s, owned_vals_new b = Ok s0 -> owned_vals_steps k s0 = Ok (items, s) -> owned_vals_into_bdd s = b).
+Proof. split; [exact owned_paths_gives_back|exact owned_vals_gives_back]. Qed.
+Print Assumptions C08_owned_iter_gives_back.
+
+Theorem C08_owned_next_keeps_bdd :
+  (forall s o s', owned_paths_next s = Ok (o, s') -> owned_paths_into_bdd s' = owned_paths_into_bdd s) /\
+  (forall s o s', owned_vals_next s = Ok (o, s') -> owned_vals_into_bdd s' = owned_vals_into_bdd s).
+Proof. split; [exact owned_next_keeps_bdd|exact owned_vals_next_keeps_bdd]. Qed.
+Print Assumptions C08_owned_next_keeps_bdd.
+
+(* ... and their items are those of the borrowed iterators: collecting the owned path iterator is running path_iter
+   (every diagram, every outcome); call by call its answers are the items of path_iter, then None for ever; the owned
+   valuation iterator yields sat_valuations b, then None, on every valid diagram whose root reaches no redundant test *)
+Theorem C08_owned_iter_same_items :
+  (forall b, owned_paths_collect b = match path_iter b with Ok l => Ok (l, (b, [])) | Panic => Panic | OutOfFuel => OutOfFuel end) /\
+  (forall b cs k, path_iter b = Ok cs ->
+     exists s0 s, owned_paths_new b = Ok s0 /\
+       owned_paths_steps k s0 = Ok (firstn k (map Some cs ++ repeat None k), s) /\ owned_paths_into_bdd s = b) /\
+  (forall b, wf b -> ~ reachable_redundant b ->
+     sat_valuations_iter b = Ok (sat_valuations b) /\
+     exists s0, owned_vals_new b = Ok s0 /\
+       forall f, exists s, owned_vals_drain (length (sat_valuations b) + S f) s0 = Ok (sat_valuations b, s) /\ owned_vals_into_bdd s = b).
+Proof. split; [exact owned_paths_same_items|]. split; [exact owned_paths_same_items_stepwise|exact owned_vals_same_items]. Qed.
+Print Assumptions C08_owned_iter_same_items.
+
+Theorem C08_owned_vals_canonical : forall b, Canonical b ->
+  exists s0, owned_vals_new b = Ok s0 /\
+    forall f, exists s, owned_vals_drain (length (sat_valuations b) + S f) s0 = Ok (sat_valuations b, s) /\ owned_vals_into_bdd s = b.
+Proof. exact owned_vals_same_items_canonical. Qed.
+Print Assumptions C08_owned_vals_canonical.
+
+Example C08_owned_example :
+  (exists s0 s, owned_paths_new ex08 = Ok s0 /\
+     owned_paths_steps 3 s0 = Ok ([Some [Some false; Some true]; Some [Some true; None; Some true]; None], s) /\
+     owned_paths_into_bdd s = ex08) /\
+  (exists s0 items s, owned_vals_new ex08 = Ok s0 /\ owned_vals_steps 5 s0 = Ok (items, s) /\
+     items = map Some (firstn 5 (sat_valuations ex08)) /\ owned_vals_into_bdd s = ex08) /\
+  (exists s0 s, owned_vals_new ex08 = Ok s0 /\ owned_vals_drain 9 s0 = Ok (sat_valuations ex08, s) /\ owned_vals_into_bdd s = ex08).
+Proof. exact owned_example. Qed.
+Print Assumptions C08_owned_example.
